@@ -290,9 +290,13 @@ def do_check(mod, prop, tier, seed, repo, workdir, jobs):
     if err:
         inconclusive.append("evidence does not validate: " + err)
         coverage["inconclusive_reasons"] = inconclusive
-    os.makedirs(os.path.join(ROOT, "evidence"), exist_ok=True)
-    with open(os.path.join(ROOT, "evidence", "%s.json" % prop), "w") as f:
+    # evidence/ describes /repo itself; runs against a scratch tree (VERIF_REPO, mutant / seeded / benign matrices) never overwrite it
+    evdir = os.path.join(ROOT, "evidence") if repo == "/repo" else os.path.join(ROOT, ".work", "evidence")
+    os.makedirs(evdir, exist_ok=True)
+    evtmp = os.path.join(evdir, ".%s.%d.tmp" % (prop, os.getpid()))
+    with open(evtmp, "w") as f:
         json.dump(ev, f, indent=1, sort_keys=True)
+    os.replace(evtmp, os.path.join(evdir, "%s.json" % prop))
 
     if new_viol:
         print("RESULT property=%s tier=%s violated: %d violating cases, %d mechanisms; evaluations=%d" % (
